@@ -387,23 +387,24 @@ fn compare_state(pool: &ProofPool, m: &Model, cat: &Catalogue, lim: &Limits, now
     if age(v.verify_window_started) != now - m.window_start_ns {
         d.push(Diverge { cat: "window", what: format!("verification window started {} ns ago, model says {} ns ago", age(v.verify_window_started), now - m.window_start_ns) });
     }
-    // statistics
+    // statistics must match the POOLED CONTENTS (the H5 view), whatever the model says; volumes are recomputed
+    // from the pooled proofs' public inputs, ages from their admission instants
     let stats = pool.bucket_stats();
-    if stats.len() != m.buckets.len() {
-        d.push(Diverge { cat: "stats", what: "bucket_stats length differs".into() });
+    if stats.len() != v.buckets.len() {
+        d.push(Diverge { cat: "stats", what: "bucket_stats has a different number of buckets than the pool holds".into() });
     } else {
-        for (s, (k, mb)) in stats.iter().zip(m.buckets.iter()) {
-            let vol = mb.proofs.iter().fold(0u64, |a, p| a.saturating_add(cat.items[p.item].volume));
-            let oldest = mb.proofs.iter().map(|p| now - p.admitted_ns).max().unwrap_or(0);
-            let ok = bkey(&s.key) == *k
-                && s.num_proofs == mb.proofs.len()
+        for (s, b) in stats.iter().zip(v.buckets.iter()) {
+            let vol = b.proofs.iter().fold(0u64, |a, p| a.saturating_add(parse_item(&p.public_inputs, cat.n).2));
+            let oldest = b.proofs.iter().map(|p| age(p.admitted_at)).max().unwrap_or(0);
+            let ok = s.key == b.key
+                && s.num_proofs == b.proofs.len()
                 && s.batch_size == lim.batch
                 && s.total_volume == vol
                 && s.oldest_age.as_nanos() as u64 == oldest
-                && s.last_snapshot_age.map(|x| x.as_nanos() as u64) == mb.last_snapshot_ns.map(|x| now - x)
-                && s.is_full() == (mb.proofs.len() >= lim.batch);
+                && s.last_snapshot_age.map(|x| x.as_nanos() as u64) == b.last_snapshot_at.map(age)
+                && s.is_full() == (b.proofs.len() >= lim.batch);
             if !ok {
-                d.push(Diverge { cat: "stats", what: format!("bucket_stats differ from the pooled contents: got ({}, vol {}, oldest {:?}, snap {:?}) want ({}, vol {}, oldest {} ns)", s.num_proofs, s.total_volume, s.oldest_age, s.last_snapshot_age, mb.proofs.len(), vol, oldest) });
+                d.push(Diverge { cat: "stats", what: format!("bucket_stats differ from the pooled contents: got ({}, vol {}, oldest {:?}, snap {:?}) want ({}, vol {}, oldest {} ns)", s.num_proofs, s.total_volume, s.oldest_age, s.last_snapshot_age, b.proofs.len(), vol, oldest) });
             }
         }
     }
@@ -626,7 +627,8 @@ fn run_history(prop: &str, ctx: &Ctx, rep: &Report, cat: &Catalogue, hidx: u64) 
         // state comparison after every operation
         let now = vclock::now_ns();
         let divs = compare_state(&pool, &m, cat, &lim, now, Instant::now());
-        let had_div = !divs.is_empty();
+        // only a divergence of the pooled contents makes the rest of the history meaningless
+        let had_div = divs.iter().any(|d| d.cat == "state");
         for dv in divs {
             let cat_name: &'static str = match (&op, dv.cat) {
                 (Op::Push(_), "state") => "push-state",
